@@ -345,7 +345,8 @@ def md_reuse_histories(rng, n):
     return out
 
 
-SETTINGS_DOC = "# T\n\na[^x] b[^y] c[^1]\n\n[^y]: Y\n[^x]: X\n[^1]: one\n\n## S\n\n[](#t) $x$ ~~s~~\n"
+SETTINGS_DOC = ("# T\n\na[^x] b[^y] c[^1]\n\n[^y]: Y\n[^x]: X\n[^1]: one\n\n## S\n\n[](#t) [l](https://x.org) [u](other.md) $x$ 1$ $$y$$ ~~s~~ www.x.org\n\n"
+                "- [ ] task\n\n```python\nx = 1\n```\n\n$$\na\n$$ (lab)\n")
 
 
 def shared_settings_histories(fields):
@@ -357,9 +358,11 @@ def shared_settings_histories(fields):
     from myst_parser.config.main import MdParserConfig
     defaults = {f.name: (f.default if f.default is not dc.MISSING else None) for f in dc.fields(MdParserConfig)}
     out = []
-    for field in fields:
+    # every boolean field (whatever the write table says: a write through setattr(settings, f"myst_{name}") has no literal name)
+    usable = [f.name for f in dc.fields(MdParserConfig) if "docutils" not in f.metadata.get("omit", []) and isinstance(defaults.get(f.name), bool)]
+    for field in list(dict.fromkeys(list(fields) + usable)):
         d = defaults.get(field)
-        if not isinstance(d, bool):
+        if not isinstance(d, bool) or field in ("gfm_only", "commonmark_only"):
             continue
         a = SETTINGS_DOC
         b = f"---\nmyst:\n  {field}: {str(not d).lower()}\n---\n" + SETTINGS_DOC
